@@ -552,9 +552,42 @@ pub fn run(plan: &C01Plan, sched: &Sched) -> Outcome {
                         t.await.ok();
                     }
                 };
-                let hung = tokio::time::timeout(Duration::from_secs(600), all).await.is_err();
-                // targets need a moment to observe the final EOFs
-                tokio::time::sleep(Duration::from_secs(20)).await;
+                // "Pending at the horizon" must not encode a transfer rate: megabytes through 1 KiB socket
+                // buffers with 50 ms latency legitimately take minutes. The horizon is therefore
+                // progress-based: the run ends when everything has resolved, or when the simulated
+                // network has not moved a single byte for IDLE seconds (nothing can change any more:
+                // the system has no timers longer than that apart from the UDP prune timer, which
+                // only closes things), or at a hard cap.
+                const IDLE: u64 = 120;
+                const CAP: u64 = 4 * 3600;
+                let t_start = now();
+                let mut all = std::pin::pin!(all);
+                let (mut last_events, mut idle) = (world_digest().1, 0u64);
+                let mut hung = false;
+                loop {
+                    tokio::select! {
+                        biased;
+                        () = &mut all => break,
+                        () = tokio::time::sleep(Duration::from_secs(10)) => {}
+                    }
+                    let e = world_digest().1;
+                    if e == last_events { idle += 10 } else { idle = 0; last_events = e }
+                    if idle >= IDLE || (now() - t_start).as_secs() > CAP {
+                        hung = true;
+                        break;
+                    }
+                }
+                // targets then observe the final bytes and EOFs: same progress-based wait
+                idle = 0;
+                loop {
+                    tokio::time::sleep(Duration::from_secs(10)).await;
+                    let done = cres2.borrow().iter().all(|r| !r.target_accepted || r.target_done.is_some());
+                    let e = world_digest().1;
+                    if e == last_events { idle += 10 } else { idle = 0; last_events = e }
+                    if (done && idle >= 20) || idle >= IDLE || (now() - t_start).as_secs() > 2 * CAP {
+                        break;
+                    }
+                }
                 (client, hung)
             })
             .await;
